@@ -76,13 +76,36 @@ CHAIN_AT = {
 for _k, _f in CHAIN_AT.items():
     FAMILIES["chain_at:" + _k] = _f
 
+# a left-nested chain of EVERY operator (one slot table entry each in the project's unparser)
+_OPCH = {
+    "sub": ("1", " - ", "0"), "mul": ("1", " * ", "1"), "div": ("1", " / ", "1"), "floordiv": ("7", " // ", "1"),
+    "mod": ("7", " % ", "5"), "lshift": ("1", " << ", "0"), "rshift": ("9", " >> ", "0"), "bitand": ("3", " & ", "3"),
+    "bitxor": ("1", " ^ ", "0"), "bitor": ("0", " | ", "1"), "pow_right": ("1", " ** ", "1"),
+    "or": ("0", " or ", "0"), "eq": ("1", " == ", "1"), "ne_le": ("0", " <= ", "0"), "is": ("None", " is ", "None"),
+    "is_not": ("len", " is not ", "None"), "in": ("1", " in ", "[1, True]"), "not_in": ("2", " not in ", "[1, False]"),
+    "and_or_mixed": ("1", " and 0 or ", "1"), "add_mul_mixed": ("1", " + 2 * ", "1"), "sub_neg": ("1", " - -", "1"),
+    "shift_add_mixed": ("1", " << 0 + ", "1"), "bitor_xor_and_mixed": ("1", " | 2 ^ 3 & ", "1"),
+    "cmp_in_bool": ("1", " < 2 and ", "1"), "not_and": ("1", " and not ", "0"),
+}
+for _k, (_a, _op, _b) in _OPCH.items():
+    FAMILIES["op_chain:" + _k] = (lambda a, op, b: (lambda n: "RESULT = " + a + (op + b) * (n - 1) + "\n"))(_a, _op, _b)
+FAMILIES["op_chain:matmul"] = lambda n: "class M:\n    def __matmul__(self, o):\n        return self\nm = M()\nRESULT = (m" + " @ m" * (n - 1) + ") is m\n"
+FAMILIES["op_chain:unary_minus"] = lambda n: "RESULT = " + "- " * n + "1\n"
+FAMILIES["op_chain:unary_invert"] = lambda n: "RESULT = " + "~" * n + "1\n"
+FAMILIES["op_chain:unary_not"] = lambda n: "RESULT = " + "not " * n + "1\n"
+FAMILIES["op_chain:slices"] = lambda n: "l = [1, 2, 3]\nRESULT = l" + "[:]" * n + "\n"
+FAMILIES["op_chain:call_attr_sub_mixed"] = lambda n: ("class A:\n    def __call__(self):\n        return [self]\na = A()\na.a = a\nRESULT = (a"
+                                                      + ".a()[0]" * n + ") is a\n")
+FAMILIES["op_chain:star_unpack_nest"] = lambda n: "RESULT = " + "[*" * n + "[1]" + "]" * n + "\n"
+OP_CHAINS = tuple(k for k in FAMILIES if k.startswith("op_chain:"))
+
 NESTING = ("nest_if", "nest_for", "nest_while", "nest_mixed", "nest_def", "nest_lambda", "nest_comp",
-           "nest_parens_tuple", "nest_ifexp", "binop_right")
+           "nest_parens_tuple", "nest_ifexp", "binop_right", "op_chain:star_unpack_nest")
 NEST_SCHEDULE = (5, 10, 20, 40, 60, 80, 95)
 # chains that the recursive stdlib unparser walks one frame (or more) per link
 CHAIN_LIKE = ("elif_chain", "binop_left", "calls", "attrs", "subscripts", "chained_targets", "chained_targets_in_func",
               "lambda_tower", "lambda_tower_in_class", "lambda_tower_in_func", "ifexp_tower", "decorators",
-              "comp_clauses", "comp_conditions") + tuple("chain_at:" + k for k in CHAIN_AT)
+              "comp_clauses", "comp_conditions") + tuple("chain_at:" + k for k in CHAIN_AT) + OP_CHAINS
 IF_STYLE_SENSITIVE = ("elif_chain", "nest_if", "nest_mixed")
 
 
